@@ -32,6 +32,7 @@ FLAVOURS = {
     "vg-dbg": ["-O0", "-g"],
     "vg-rel": ["-O2", "-g", "-DNDEBUG"],
     "syntax": ["-fsyntax-only"],
+    "cov": ["-O0", "-g", "--coverage"],
 }
 VALGRIND_FLAVOURS = {"vg-O0", "vg-dbg", "vg-rel"}
 
@@ -430,10 +431,46 @@ class Ctx:
                 r = self.run(**it)   # once more, alone
             self.absorb(r, shard=shards[i]["name"], count_nt=shards[i].get("primary", True))
             out[i] = r
-        self.compile_secs = round(sum(b.secs for b in builds), 1)
-        self.cached_builds = sum(1 for b in builds if b.cached)
-        self.total_builds = len(builds)
+        self.compile_secs = round(sum(b.secs for b in builds), 1) + getattr(self, "compile_secs", 0)
+        self.cached_builds = sum(1 for b in builds if b.cached) + getattr(self, "cached_builds", 0)
+        self.total_builds = len(builds) + getattr(self, "total_builds", 0)
+        if self.thorough and not self.replay_mode and not self.violations and os.environ.get("VERIF_NO_COV") != "1":
+            self.line_coverage([s for s in shards if s.get("primary", True) and s["flavour"].startswith("asan-dbg")])
         return out
+
+    # ------------------------------------------------------------ thorough tier: which covfie lines did the workload reach?
+    def line_coverage(self, shards):
+        """re-builds the primary shards with gcov instrumentation (-O0 --coverage), runs them and records, per covfie
+        header, the best line coverage any shard achieved.  Evidence only; never a verdict."""
+        if not shards:
+            return
+        jobs = [dict(name="cov:" + s["name"], src=s["src"], flavour="cov", defines=tuple(s.get("defines", ())),
+                     cuda_shim=s.get("cuda_shim", False), is_text=s.get("is_text", False)) for s in shards]
+        builds = self.compile_many(jobs)
+        items = []
+        for s, b in zip(shards, builds):
+            if b.ok:
+                d = os.path.dirname(b.exe)
+                for f in os.listdir(d):
+                    if f.endswith(".gcda"):
+                        os.remove(os.path.join(d, f))
+                items.append(dict(build=b, args=tuple(s.get("args", ())), env=s.get("env"), timeout=s.get("timeout", 7200), name=b.name))
+        self.run_many(items)
+        cov = getattr(self, "cov", {})
+        lib = os.path.join(self.repo, "lib") + os.sep
+        for it in items:
+            d = os.path.dirname(it["build"].exe)
+            notes = [f for f in os.listdir(d) if f.endswith(".gcno")]
+            if not notes:
+                continue
+            p = subprocess.run(["gcov", "-n", "-o", d, os.path.join(d, notes[0])], cwd=d, capture_output=True, text=True)
+            for m in re.finditer(r"File '([^']+)'\nLines executed:([0-9.]+)% of (\d+)", p.stdout):
+                path, pct, n = m.group(1), float(m.group(2)), int(m.group(3))
+                if path.startswith(lib):
+                    key = path[len(lib):]
+                    if key not in cov or cov[key][0] < pct:
+                        cov[key] = (pct, n)
+        self.cov = cov
 
     # ------------------------------------------------------------ finish
     def finish(self, rule, assumptions, extra_coverage=None, exhaustive=None, min_nt=2):
@@ -445,6 +482,8 @@ class Ctx:
                "builds": {"total": getattr(self, "total_builds", 0), "from_cache": getattr(self, "cached_builds", 0),
                           "compile_cpu_s": getattr(self, "compile_secs", 0)},
                "repo": self.repo, "repo_lib_sha256": self.repo_hash[:16]}
+        if getattr(self, "cov", None):
+            cov["covfie_header_line_coverage_percent"] = {k: {"best_shard_percent": v[0], "instrumented_lines": v[1]} for k, v in sorted(self.cov.items())}
         if exhaustive is not None:
             cov["exhaustive"] = bool(exhaustive)
         if extra_coverage:
